@@ -341,8 +341,15 @@ class NamespaceClass(Namespace[symtable.Class]):
                 return Name(id=name, ctx=Load())
 
         for comp in self.comp_stack:
-            if isinstance(comp, oneliner.expr_transform.PendingLambda):
+            if isinstance(
+                comp,
+                (
+                    oneliner.expr_transform.PendingLambda,
+                    oneliner.expr_transform.PendingComp,
+                ),
+            ):
                 # the names of the class body are not visible inside a lambda
+                # or a comprehension (except in its first iterable)
                 if name in self.outer_nonlocal_map:
                     outer = self.outer_nonlocal_map[name]
                     return Subscript(
@@ -352,10 +359,11 @@ class NamespaceClass(Namespace[symtable.Class]):
                     )
                 return self.get_load_global_name(name)
 
-        if name in self.globals_used_in_comp:
-            return Name(id=name, ctx=Load())
-
-        symbol = self.symt.lookup(name)
+        try:
+            symbol = self.symt.lookup(name)
+        except KeyError:
+            # not a name of the class body itself
+            return self.get_load_global_name(name)
         if name in self.outer_nonlocal_map:
             outer = self.outer_nonlocal_map[name]
             return Subscript(
